@@ -1,6 +1,13 @@
 package vh
 
 import (
+	"crypto/ecdsa"
+	"crypto/elliptic"
+	"crypto/rand"
+	"crypto/tls"
+	"crypto/x509"
+	"crypto/x509/pkix"
+	"math/big"
 	"context"
 	"fmt"
 	"net"
@@ -48,6 +55,7 @@ type FakeForward struct {
 	Pings        int
 	DecodeErrors []string
 	SmallRecvBuf bool
+	TLS          *tls.Config // non-nil: every accepted connection starts with a TLS handshake (the agent's client does not verify certificates)
 	Secret       string // non-empty: the server performs the Forward handshake (HELO/PING/PONG) with this shared key on every connection
 }
 
@@ -205,7 +213,18 @@ func (f *FakeForward) serve(idx int, c net.Conn, at UpstreamAttempt) {
 	}
 	f.mu.Lock()
 	secret := f.Secret
+	tlsCfg := f.TLS
 	f.mu.Unlock()
+	rawc := c // the TCP connection (linger / peek); c becomes the TLS layer when the upstream speaks TLS
+	if tlsCfg != nil {
+		tc := tls.Server(c, tlsCfg)
+		_ = tc.SetDeadline(time.Now().Add(3 * time.Second))
+		if err := tc.Handshake(); err != nil {
+			return
+		}
+		_ = tc.SetDeadline(time.Time{})
+		c = tc
+	}
 	if secret != "" {
 		reject := at.Kind == "rejectlogin"
 		ok, err := forwardprotocol.DoServerHandshake(c, secret, 3*time.Second, func(_, _, _ string) (bool, string) {
@@ -224,7 +243,7 @@ func (f *FakeForward) serve(idx int, c net.Conn, at UpstreamAttempt) {
 	}
 	if at.Kind == "stopreading" {
 		// never read: the client's writes fill the socket buffers and block
-		f.waitClosed(c)
+		f.waitClosed(rawc)
 		return
 	}
 	var buf []byte
@@ -281,7 +300,7 @@ func (f *FakeForward) serve(idx int, c net.Conn, at UpstreamAttempt) {
 					continue
 				case "reset":
 					if received > at.After {
-						if tc, ok := c.(*net.TCPConn); ok {
+						if tc, ok := rawc.(*net.TCPConn); ok {
 							_ = tc.SetLinger(0)
 						}
 						return
@@ -363,4 +382,27 @@ func (f *FakeForward) Accepted() int {
 	f.mu.Lock()
 	defer f.mu.Unlock()
 	return f.accepted
+}
+
+var (
+	selfSignedOnce sync.Once
+	selfSigned     *tls.Config
+)
+
+// SelfSignedTLS returns a server configuration with a certificate made up on the spot (one per process).
+func SelfSignedTLS() *tls.Config {
+	selfSignedOnce.Do(func() {
+		key, err := ecdsa.GenerateKey(elliptic.P256(), rand.Reader)
+		if err != nil {
+			panic("HARNESS-ERROR: " + err.Error())
+		}
+		tmpl := &x509.Certificate{SerialNumber: big.NewInt(1), Subject: pkix.Name{CommonName: "fake-forward"}, NotBefore: time.Now().Add(-time.Hour), NotAfter: time.Now().Add(24 * time.Hour),
+			KeyUsage: x509.KeyUsageDigitalSignature, ExtKeyUsage: []x509.ExtKeyUsage{x509.ExtKeyUsageServerAuth}}
+		der, err := x509.CreateCertificate(rand.Reader, tmpl, tmpl, &key.PublicKey, key)
+		if err != nil {
+			panic("HARNESS-ERROR: " + err.Error())
+		}
+		selfSigned = &tls.Config{Certificates: []tls.Certificate{{Certificate: [][]byte{der}, PrivateKey: key}}}
+	})
+	return selfSigned
 }
